@@ -191,6 +191,78 @@ theorem utf8_roundtrip_list (cs : List Nat) (h : ∀ c ∈ cs, isScalar c) (f : 
     rw [utf8_one f' c (h c (by simp)), ih (fun x hx => h x (by simp [hx])) f' (by simp at hf; omega)]
     rfl
 
+/-- the replacement decoder copies a well-formed sequence unchanged -/
+theorem utf8Replace_one (f : Nat) (c : Nat) (hc : isScalar c) (rest : List Nat) :
+    utf8Replace (f + 1) (utf8Encode c ++ rest) = utf8Encode c ++ utf8Replace f rest := by
+  obtain ⟨hmax, hsur⟩ := hc
+  unfold utf8Encode
+  by_cases h1 : c < 0x80
+  · simp only [h1, if_true, List.cons_append, List.nil_append, utf8Replace]
+  · by_cases h2 : c < 0x800
+    · simp only [h1, h2, if_true, if_false, List.cons_append, List.nil_append, utf8Replace]
+      have a1 : ¬ (0xC0 + c / 64 < 0x80) := by omega
+      have a2 : utf8Size (0xC0 + c / 64) = 2 := by
+        have : 0xC2 ≤ 0xC0 + c / 64 ∧ 0xC0 + c / 64 ≤ 0xDF := by omega
+        simp only [utf8Size, this, and_self, if_true]
+      have a3 : utf8Accept (0xC0 + c / 64) = (0x80, 0xBF) := by
+        have b1 : ¬ (0xC0 + c / 64 = 0xE0) := by omega
+        have b2 : ¬ (0xC0 + c / 64 = 0xED) := by omega
+        have b3 : ¬ (0xC0 + c / 64 = 0xF0) := by omega
+        have b4 : ¬ (0xC0 + c / 64 = 0xF4) := by omega
+        simp only [utf8Accept, b1, b2, b3, b4, if_false]
+      have a4 : 0x80 ≤ 0x80 + c % 64 ∧ 0x80 + c % 64 ≤ 0xBF := by omega
+      simp only [a1, a2, a3, a4, if_true, if_false, and_self, Nat.succ_ne_zero]
+    · by_cases h3 : c < 0x10000
+      · simp only [h1, h2, h3, if_true, if_false, List.cons_append, List.nil_append, utf8Replace]
+        have a1 : ¬ (0xE0 + c / 4096 < 0x80) := by omega
+        have a2 : utf8Size (0xE0 + c / 4096) = 3 := by
+          have n1 : ¬ (0xC2 ≤ 0xE0 + c / 4096 ∧ 0xE0 + c / 4096 ≤ 0xDF) := by omega
+          have : 0xE0 ≤ 0xE0 + c / 4096 ∧ 0xE0 + c / 4096 ≤ 0xEF := by omega
+          simp only [utf8Size, n1, this, and_self, if_true, if_false]
+        have a3 : (utf8Accept (0xE0 + c / 4096)).1 ≤ 0x80 + c / 64 % 64 ∧ 0x80 + c / 64 % 64 ≤ (utf8Accept (0xE0 + c / 4096)).2 := by
+          unfold utf8Accept
+          by_cases e0 : 0xE0 + c / 4096 = 0xE0
+          · simp only [e0, if_true]; omega
+          · by_cases ed : 0xE0 + c / 4096 = 0xED
+            · simp only [ed, if_true]; simp; omega
+            · have b3 : ¬ (0xE0 + c / 4096 = 0xF0) := by omega
+              have b4 : ¬ (0xE0 + c / 4096 = 0xF4) := by omega
+              simp only [e0, ed, b3, b4, if_false]; omega
+        have a5 : isCont (0x80 + c % 64) = true := by simp [isCont]; omega
+        simp only [a1, a2, a3, a5, if_true, if_false, and_self]
+        simp
+      · simp only [h1, h2, h3, if_false, List.cons_append, List.nil_append, utf8Replace]
+        have a1 : ¬ (0xF0 + c / 262144 < 0x80) := by omega
+        have a2 : utf8Size (0xF0 + c / 262144) = 4 := by
+          have n1 : ¬ (0xC2 ≤ 0xF0 + c / 262144 ∧ 0xF0 + c / 262144 ≤ 0xDF) := by omega
+          have n2 : ¬ (0xE0 ≤ 0xF0 + c / 262144 ∧ 0xF0 + c / 262144 ≤ 0xEF) := by omega
+          have : 0xF0 ≤ 0xF0 + c / 262144 ∧ 0xF0 + c / 262144 ≤ 0xF4 := by omega
+          simp only [utf8Size, n1, n2, this, and_self, if_true, if_false]
+        have a3 : (utf8Accept (0xF0 + c / 262144)).1 ≤ 0x80 + c / 4096 % 64 ∧ 0x80 + c / 4096 % 64 ≤ (utf8Accept (0xF0 + c / 262144)).2 := by
+          unfold utf8Accept
+          have b1 : ¬ (0xF0 + c / 262144 = 0xE0) := by omega
+          have b2 : ¬ (0xF0 + c / 262144 = 0xED) := by omega
+          by_cases f0 : 0xF0 + c / 262144 = 0xF0
+          · simp only [b1, b2, f0, if_true, if_false]; simp; omega
+          · by_cases f4 : 0xF0 + c / 262144 = 0xF4
+            · simp only [b1, b2, f4, if_true, if_false]; simp; omega
+            · simp only [b1, b2, f0, f4, if_false]; omega
+        have a5 : isCont (0x80 + c / 64 % 64) = true := by simp [isCont]; omega
+        have a6 : isCont (0x80 + c % 64) = true := by simp [isCont]; omega
+        simp only [a1, a2, a3, a5, a6, if_true, if_false, and_self]
+        simp
+
+theorem utf8Replace_valid (cs : List Nat) (h : ∀ c ∈ cs, isScalar c) (f : Nat) (hf : cs.length < f) :
+    utf8Replace f (cs.flatMap utf8Encode) = cs.flatMap utf8Encode := by
+  induction cs generalizing f with
+  | nil => cases f with
+    | zero => simp at hf
+    | succ f => simp [utf8Replace]
+  | cons c cs ih =>
+    obtain ⟨f', rfl⟩ : ∃ k, f = k + 1 := ⟨f - 1, by simp at hf; omega⟩
+    simp only [List.flatMap_cons]
+    rw [utf8Replace_one f' c (h c (by simp)), ih (fun x hx => h x (by simp [hx])) f' (by simp at hf; omega)]
+
 /-! ### UTF-16 -/
 
 /-- UTF-16 code units of a scalar value -/
@@ -245,5 +317,106 @@ theorem utf16Encode_lt (c : Nat) (hc : isScalar c) : ∀ u ∈ utf16Encode c, u 
   by_cases h1 : c < 0x10000
   · simp [h1] at hu; omega
   · simp [h1] at hu; omega
+
+
+/-! ### no reader of text can fault: the result is a string or an error, with a position rule -/
+
+/-- the two acceptable ways for a reader to end -/
+def noFault {α} : Res α → Prop
+  | .ok _ _ => True
+  | .err _ _ => True
+  | _ => False
+
+theorem tryBits_noFault (bs : Bits) (pos n : Nat) : noFault (tryBits bs pos n) := by
+  unfold tryBits; split <;> (try split) <;> trivial
+
+theorem tryBytesLen_cases (bs : Bits) (pos n : Nat) :
+    (∃ fr, tryBytesLen bs pos n = .ok fr (pos + 8 * n)) ∨ (tryBytesLen bs pos n = .err .eof (max pos bs.length) ∧ 0 < n) := by
+  unfold tryBytesLen tryBits
+  by_cases h0 : 8 * n = 0
+  · simp [h0, Res.map]
+  · by_cases h1 : pos + 8 * n ≤ bs.length
+    · simp [h0, h1, Res.map]
+    · simp [h0, h1, Res.map]; omega
+
+/-- fixed length: n bytes consumed, or an error with the position unchanged -/
+theorem textFrame_cases (bs : Bits) (pos : Nat) (n : Int) (hp : pos ≤ bs.length) :
+    (∃ fr, tryTextFrame bs pos n = .ok fr (pos + 8 * n.toNat)) ∨ tryTextFrame bs pos n = .err .other pos := by
+  unfold tryTextFrame
+  by_cases h1 : n < 0
+  · simp [h1]
+  · by_cases h2 : n > bytesLeft bs pos
+    · simp [h1, h2]
+    · simp only [h1, h2, if_false]
+      rw [bytesLeft_eq bs pos hp] at h2
+      have : pos + 8 * n.toNat ≤ bs.length := by omega
+      exact Or.inl ⟨_, tryBytesLen_ok bs pos _ this⟩
+
+theorem textNullLenFrame_cases (bs : Bits) (pos : Nat) (n : Int) (hp : pos ≤ bs.length) :
+    (∃ fr, tryTextNullLenFrame bs pos n = .ok fr (pos + 8 * n.toNat)) ∨ tryTextNullLenFrame bs pos n = .err .other pos := by
+  unfold tryTextNullLenFrame
+  by_cases h1 : n < 0
+  · simp [h1]
+  · by_cases h2 : n > bytesLeft bs pos
+    · simp [h1, h2]
+    · simp only [h1, h2, if_false]
+      rw [bytesLeft_eq bs pos hp] at h2
+      have : pos + 8 * n.toNat ≤ bs.length := by omega
+      exact Or.inl ⟨_, by rw [tryBytesLen_ok bs pos _ this]; rfl⟩
+
+/-- null terminated: the terminator is consumed, or an error with the position restored -/
+theorem textNullFrame_cases (bs : Bits) (pos cb : Nat) :
+    (∃ fr off, tryTextNullFrame bs pos cb = .ok fr (off + 8 * cb) ∧ pos ≤ off ∧ off + 8 * cb ≤ bs.length)
+    ∨ tryTextNullFrame bs pos cb = .err .eof pos ∨ tryTextNullFrame bs pos cb = .err .other pos := by
+  by_cases hcb : cb < 1
+  · simp [tryTextNullFrame, hcb]
+  · cases hf : findZeroUnit bs (8 * cb) (bs.length + 1) pos with
+    | none => exact Or.inr (Or.inl (textNull_missing bs pos cb (by omega) hf))
+    | some off =>
+      obtain ⟨h1, h2, _, _, _⟩ := findZeroUnit_spec bs (8 * cb) (by omega) _ _ _ hf
+      exact Or.inl ⟨_, off, textNull_found bs pos cb off (by omega) hf, h1, h2⟩
+
+/-- length prefixed (one length byte; no fixed field, or a fixed field of at least the prefix):
+    prefix + data consumed, or an error — position restored if the data is short, at the end of the
+    input if already the prefix is short, unchanged if the fixed field does not fit -/
+theorem textLenPrefixedFrame_cases (bs : Bits) (pos : Nat) (fixed : Int) (hp : pos ≤ bs.length)
+    (hfx : fixed = -1 ∨ 1 ≤ fixed) :
+    (∃ fr p, tryTextLenPrefixedFrame bs pos 1 fixed = .ok fr p ∧ pos + 8 ≤ p ∧ p ≤ bs.length)
+    ∨ tryTextLenPrefixedFrame bs pos 1 fixed = .err .eof pos
+    ∨ tryTextLenPrefixedFrame bs pos 1 fixed = .err .other pos
+    ∨ (tryTextLenPrefixedFrame bs pos 1 fixed = .err .eof bs.length ∧ bs.length < pos + 8) := by
+  unfold tryTextLenPrefixedFrame
+  simp only [show ¬ ((1 : Int) < 0) by decide, if_false, show (1 : Int).toNat * 8 = 8 by decide]
+  by_cases hb : fixed > bytesLeft bs pos
+  · simp [hb]
+  · simp only [hb, if_false]
+    by_cases h8 : pos + 8 ≤ bs.length
+    · rw [tryUintBits_ok bs pos 8 (by decide) h8]
+      simp only [Res.bind]
+      rcases hfx with hm1 | hge
+      · subst hm1
+        simp only [ne_eq, not_true_eq_false, if_false]
+        have hneg : ¬ ((ofBitsBE (slice bs pos 8) : Int) < 0) := by omega
+        simp only [hneg, if_false, Int.toNat_natCast]
+        rcases tryBytesLen_cases bs (pos + 8) (ofBitsBE (slice bs pos 8)) with ⟨fr, hfr⟩ | ⟨he, hpos⟩
+        · by_cases hin : pos + 8 + 8 * ofBitsBE (slice bs pos 8) ≤ bs.length
+          · rw [hfr]; exact Or.inl ⟨_, _, rfl, by omega, hin⟩
+          · have := tryBits_short bs (pos + 8) (8 * ofBitsBE (slice bs pos 8)) (by omega) (by omega)
+            simp [tryBytesLen, this, Res.map]
+        · rw [he]; exact Or.inr (Or.inl rfl)
+      · have hne : ¬ (fixed = -1) := by omega
+        simp only [ne_eq, hne, not_false_eq_true, if_true]
+        have hneg : ¬ (fixed - 1 < 0) := by omega
+        simp only [hneg, if_false]
+        rw [bytesLeft_eq bs pos hp] at hb
+        have hin : pos + 8 + 8 * (fixed - 1).toNat ≤ bs.length := by omega
+        rw [tryBytesLen_ok bs (pos + 8) _ hin]
+        exact Or.inl ⟨_, _, rfl, by omega, hin⟩
+    · have := tryUintBits_short bs pos 8 (by decide) (by decide) (by omega : bs.length < pos + 8)
+      rw [this]
+      simp only [Res.bind]
+      have : max pos bs.length = bs.length := by omega
+      rw [this]
+      exact Or.inr (Or.inr (Or.inr ⟨rfl, by omega⟩))
 
 end Proofs.C02
